@@ -234,6 +234,149 @@ theorem MSplitTail_rsOf (D : DigestFn (r + 1)) (hT : legalThreshold T = true) :
       rw [hframe id (fun e => hnI (e ▸ hsubc _ hcid)) hnf (fun e => hnI (e ▸ hroot1))]
       exact hnone
 
+/-! ## the `splitRoot` field of `MRootTail`
+
+  NOTE (model-level finding): the field `MRootTail.splitRoot` CANNOT be proved for `Q := MQ T D` as it stands.  `MQ` fixes
+  `top := false` (`SInv T D d false`: `MetaLoose .. false m` demands `m.root = false`, `MDataLoose .. false s` demands
+  `s.root = false` and the non-root prefix), while the new root built by `OMap.splitRoot` has `root := true`, so
+  `mds_RootPre (MQ T D) addr s3 m3 _` (its field `inv : MQ T D m3.d m3.root`) is false for the model's result; for the same
+  reason `mds_RootPre (MQ T D)` does not hold of a real handle (whose root slab has `root = true`).  The handle-level
+  predicate has to be a `top := true` variant of `MQ`.  What is proved here is the field for ANY `Q`, with the facts about
+  `Q` as explicit hypotheses ABOUT MODEL VALUES ONLY:
+  * `hHyp`: `Q` of the root gives the range hypotheses `root_splitHyp` of the generated `splitRoot`;
+  * `hFit`: the halves of the model's split of the old root are in the `uint` ranges (`mr_RootFit`);
+  * `hFitRoot` (error case only): the root is in the `uint` ranges;
+  * `hQ'`: the model's `OMap.splitRoot` re-establishes `Q` on the new root. -/
+
+theorem mts_split_ctx (d : Nat) (child l rr : MTree r d) (c c1 : Ctx) (hsp : MTree.split d child c = .ok (l, rr, c1)) :
+    c1 = (c.alloc (MTree.hdr d child).id.addr).2 := by
+  cases d with
+  | zero =>
+    simp only [MTree.split, MDataSlab.split] at hsp
+    split at hsp
+    · cases hsp
+    · cases hsp; rfl
+  | succ d =>
+    simp only [MTree.split, MMetaSlab.split] at hsp
+    split at hsp
+    · cases hsp
+    · cases hsp; rfl
+
+/-- the `splitRoot` field of `MRootTail T (rsOf T) Q`, for any provider invariant `Q` (see the note above) -/
+theorem MRootTail_splitRoot_rsOf_partial (Q : (d : Nat) → MTree r d → Prop)
+    (hHyp : ∀ m : OMap r, Q m.d m.root → root_splitHyp m)
+    (hFit : ∀ (m : OMap r) (c : Ctx) (l rr : MTree r m.d) (c2 : Ctx), Q m.d m.root →
+      MTree.split m.d (mrs_rootOld m c) (c.alloc m.rootID.addr).2 = .ok (l, rr, c2) → mr_RootFit m.d l ∧ mr_RootFit m.d rr)
+    (hFitRoot : ∀ m : OMap r, Q m.d m.root → mr_RootFit m.d m.root)
+    (hQ' : ∀ (m : OMap r) (c : Ctx) (m3 : OMap r) (c3 : Ctx), Q m.d m.root → MTree.isFull T m.d m.root = true →
+      m.splitRoot c = .ok (m3, c3) → Q m3.d m3.root) :
+    ∀ (addr : Nat) (m2 : OMap r) (s2 : MHSt r) (x0 : Option DX),
+      mds_RootPre Q addr s2 m2 x0 → MTree.isFull T m2.d m2.root = true →
+      match m2.splitRoot s2.ctx with
+      | .ok (m3, c3) =>
+        ∃ s3, (rsOf T).splitRoot (md_map m2 s2) = (none, md_map m3 s3) ∧ s3.ctx = c3 ∧ s3.popped = s2.popped ∧
+          mds_RootPre Q addr s3 m3 (some (md_extra m3)) ∧
+          mds_Delta s2.heap s3.heap (md_ids m2.d m2.root) (md_ids m3.d m3.root)
+      | .error e => ∃ M', (rsOf T).splitRoot (md_map m2 s2) = (some e, M') := by
+  intro addr m2 s2 x0 hpre hfull
+  have hmod := mrs_splitRoot_model m2 s2.ctx
+  rcases hsp : MTree.split m2.d (mrs_rootOld m2 s2.ctx) (s2.ctx.alloc m2.rootID.addr).2 with e | ⟨l, rr, c2⟩
+  · simp only [hsp] at hmod
+    rw [hmod]
+    exact ⟨_, Ob_splitRoot_heap_error T m2 s2 (hHyp m2 hpre.inv) hmod (hFitRoot m2 hpre.inv)⟩
+  · simp only [hsp] at hmod
+    obtain ⟨hfl, hfr⟩ := hFit m2 s2.ctx l rr c2 hpre.inv hsp
+    obtain ⟨hres, hctx, _⟩ := Ob_splitRoot_heap T m2 s2 (hHyp m2 hpre.inv) hmod hsp hfl hfr
+    have hQ3 := hQ' m2 s2.ctx _ _ hpre.inv hfull hmod
+    rw [hmod]
+    show ∃ s3, _ ∧ _ ∧ _ ∧ _ ∧ _
+    refine ⟨_, hres, hctx, rfl, ?_⟩
+    -- identifiers
+    obtain ⟨hoid, hokids, _⟩ := mrs_rootOld_shape m2 s2.ctx
+    obtain ⟨hlid, hrid, _, _⟩ := mrs_split_shape m2.d (mrs_rootOld m2 s2.ctx) l rr _ c2 hsp
+    have hkid := mts_split_kidIds m2.d (mrs_rootOld m2 s2.ctx) l rr _ c2 hsp
+    rw [hokids] at hkid
+    have hc2 := mts_split_ctx m2.d (mrs_rootOld m2 s2.ctx) l rr _ c2 hsp
+    have hI : md_ids m2.d m2.root = m2.rootID :: mrs_kidIds m2.d m2.root := mrs_md_ids_eq m2.d m2.root
+    have hsome : ∀ id ∈ md_ids m2.d m2.root, (s2.heap id).isSome = true :=
+      mds_MHolds_some m2.d m2.root x0 s2.heap hpre.held
+    have hrootI : m2.rootID ∈ md_ids m2.d m2.root := by rw [hI]; exact List.mem_cons_self
+    have hraddr : m2.rootID.addr = addr := hpre.addrOk _ hrootI
+    have hl1 : (MTree.hdr m2.d l).id = (s2.ctx.alloc m2.rootID.addr).1 := by rw [hlid, hoid]
+    have hladdr : (MTree.hdr m2.d l).id.addr = addr := by rw [hl1, mctx_alloc_addr]; exact hraddr
+    have hlidx : (MTree.hdr m2.d l).id.idx = s2.ctx.ctr + 1 := by rw [hl1, mctx_alloc_idx]
+    have hraddr2 : (MTree.hdr m2.d rr).id.addr = addr := by
+      rw [hrid, mctx_alloc_addr, ← hlid]; exact hladdr
+    have hridx : (MTree.hdr m2.d rr).id.idx = s2.ctx.ctr + 2 := by
+      rw [hrid, mctx_alloc_idx, mctx_alloc_ctr]
+    have hlnone : s2.heap (MTree.hdr m2.d l).id = none := hpre.ff _ hladdr (by rw [hlidx]; omega)
+    have hrnone : s2.heap (MTree.hdr m2.d rr).id = none := hpre.ff _ hraddr2 (by rw [hridx]; omega)
+    have hlI : (MTree.hdr m2.d l).id ∉ md_ids m2.d m2.root := fun h => by
+      have := hsome _ h; rw [hlnone] at this; cases this
+    have hrI : (MTree.hdr m2.d rr).id ∉ md_ids m2.d m2.root := fun h => by
+      have := hsome _ h; rw [hrnone] at this; cases this
+    have hrl : (MTree.hdr m2.d rr).id ≠ (MTree.hdr m2.d l).id := fun e => by
+      have := congrArg SlabID.idx e; rw [hlidx, hridx] at this; omega
+    have hndI := hpre.nodup
+    rw [hI] at hndI
+    have hrootK : m2.rootID ∉ mrs_kidIds m2.d m2.root := (List.nodup_cons.mp hndI).1
+    have hKI : ∀ id ∈ mrs_kidIds m2.d m2.root, id ∈ md_ids m2.d m2.root := fun id h => by
+      rw [hI]; exact List.mem_cons_of_mem _ h
+    obtain ⟨hheld, hframe⟩ := Ob_splitRoot_heapPost m2 s2 hsp
+      (mts_kidsHeld_of_holds s2.heap m2.d m2.root x0 hpre.held)
+      (fun h => hlI (hKI _ h)) (fun h => hrI (hKI _ h)) hrl (fun e => hlI (e ▸ hrootI)) (fun e => hrI (e ▸ hrootI)) hrootK
+    -- the identifier list of the new tree
+    have hI' : md_ids (m2.d + 1) (mrs_newRoot m2 l rr) =
+        (m2.rootID :: (MTree.hdr m2.d l).id :: mrs_kidIds m2.d l) ++ (MTree.hdr m2.d rr).id :: mrs_kidIds m2.d rr := by
+      show m2.rootID :: List.flatMap (md_ids m2.d) [l, rr] = _
+      simp only [List.flatMap_cons, List.flatMap_nil, List.append_nil, mrs_md_ids_eq m2.d l, mrs_md_ids_eq m2.d rr,
+        List.cons_append]
+    have hperm : (md_ids (m2.d + 1) (mrs_newRoot m2 l rr)).Perm
+        ((MTree.hdr m2.d rr).id :: (MTree.hdr m2.d l).id :: md_ids m2.d m2.root) := by
+      rw [hI', hI, ← hkid]
+      refine List.perm_middle.trans (List.Perm.cons _ ?_)
+      exact List.Perm.swap _ _ _
+    have hmem : ∀ id, id ∈ md_ids (m2.d + 1) (mrs_newRoot m2 l rr) ↔
+        id = (MTree.hdr m2.d rr).id ∨ id = (MTree.hdr m2.d l).id ∨ id ∈ md_ids m2.d m2.root := fun id => by
+      rw [hperm.mem_iff, List.mem_cons, List.mem_cons]
+    have hnd' : (md_ids (m2.d + 1) (mrs_newRoot m2 l rr)).Nodup := by
+      refine hperm.nodup_iff.mpr (List.nodup_cons.mpr ⟨fun h => ?_, List.nodup_cons.mpr ⟨hlI, hpre.nodup⟩⟩)
+      rcases List.mem_cons.mp h with e | h
+      · exact hrl e
+      · exact hrI h
+    have hctr3 : ∀ id : SlabID, id.addr = addr → s2.ctx.ctr + 2 < id.idx → s2.heap id = none ∧
+        id ≠ (MTree.hdr m2.d l).id ∧ id ≠ (MTree.hdr m2.d rr).id ∧ id ≠ m2.rootID := by
+      intro id ha hlt
+      have hnone : s2.heap id = none := hpre.ff id ha (by omega)
+      refine ⟨hnone, fun e => ?_, fun e => ?_, fun e => ?_⟩
+      · rw [e, hlidx] at hlt; omega
+      · rw [e, hridx] at hlt; omega
+      · have := hsome _ hrootI; rw [← e, hnone] at this; cases this
+    refine ⟨⟨hheld, hnd', ?_, ?_, hQ3⟩, ⟨?_, ?_, ?_⟩⟩
+    · intro id hid
+      rcases (hmem id).mp hid with e | e | h
+      · rw [e]; exact hraddr2
+      · rw [e]; exact hladdr
+      · exact hpre.addrOk id h
+    · intro id ha hlt
+      have hlt' : s2.ctx.ctr + 2 < id.idx := by
+        have h1 : (((c2.emit (.store (MTree.hdr m2.d l).id)).emit (.store (MTree.hdr m2.d rr).id)).emit
+          (.store m2.rootID)).ctr < id.idx := hctx ▸ hlt
+        rw [hc2] at h1
+        exact h1
+      obtain ⟨hnone, h1, h2, h3⟩ := hctr3 id ha hlt'
+      rw [hframe id h1 h2 h3]; exact hnone
+    · intro id hid hn
+      rcases (hmem id).mp hid with e | e | h
+      · rw [e]; exact hrnone
+      · rw [e]; exact hlnone
+      · exact absurd h hn
+    · intro id hid hn
+      exact absurd ((hmem id).mpr (Or.inr (Or.inr hid))) hn
+    · intro id hn hn'
+      exact hframe id (fun e => hn' ((hmem id).mpr (Or.inr (Or.inl e)))) (fun e => hn' ((hmem id).mpr (Or.inl e)))
+        (fun e => hn (e ▸ hrootI))
+
 end
 
 end Atree.TransEq
